@@ -44,7 +44,7 @@ pub fn info() -> PropInfo {
         must_observe: &[
             "ins.special", "ins.copy", "ins.advance_pc", "ins.advance_line", "ins.set_file", "ins.set_column", "ins.negate_stmt", "ins.set_basic_block", "ins.const_add_pc", "ins.fixed_advance_pc",
             "ins.set_prologue_end", "ins.set_epilogue_begin", "ins.set_isa", "ins.unknown_std0", "ins.unknown_std1", "ins.unknown_stdN", "ins.end_sequence", "ins.set_address", "ins.define_file",
-            "ins.set_discriminator", "ins.unknown_ext", "strict.rows", "strict.sequences", "strict.resume", "strict.header", "strict.tables", "version.2", "version.3", "version.4", "version.5",
+            "ins.set_discriminator", "ins.unknown_ext", "strict.rows", "strict.sequences", "strict.resume", "strict.header", "strict.tables", "strict.tables.complete_program", "version.2", "version.3", "version.4", "version.5",
             "max_ops.gt1", "op_index.nonzero", "opcode_base.lt10", "opcode_base.gt13", "v5.form.line_strp", "v5.form.strp", "v5.form.string", "v5.form.data16", "v5.ct.unknown", "v5.ct.md5", "v5.ct.source",
             "secondary.agree", "inv.rows", "inv.parsed", "inv.error_seen", "inv.sequences", "regress.tombstone",
             "corpus.object", "corpus.cc.gcc", "corpus.cc.clang", "corpus.lang.c", "corpus.lang.cpp", "corpus.line.tables", "corpus.line.rows", "corpus.line.file_entries", "corpus.line.dir_entries",
@@ -262,6 +262,8 @@ struct Got {
     params: Params,
     tables_before: Tables,
     tables_after: Tables,
+    /// tables of the `CompleteLineProgram` returned by `sequences()` (None: not observed)
+    tables_complete: Option<Tables>,
     rows: Vec<Row>,
     /// error from next_row (first one); rows() was stopped there
     row_err: Option<String>,
@@ -324,6 +326,9 @@ fn observe(b: &Built, tabs: &Tabs, enc: Enc, comp: &Comp, want_tables: bool, wan
         g.seqs = Some(match program.sequences() {
             Err(e) => Err(format!("{e:?}")),
             Ok((complete, seqs)) => {
+                if want_tables {
+                    g.tables_complete = Some(got_tables(complete.header(), &dwarf));
+                }
                 let mut out = vec![];
                 for s in &seqs {
                     let mut gs = GotSeq { start: s.start, end: s.end, rows: vec![], err: None, ended: false };
@@ -452,6 +457,17 @@ fn run_case(ctx: &mut Ctx, stream: &str, class: &str, c: &Case, check_tables: bo
                 if m != g {
                     macro_rules! f {
                         ($($n:ident),*) => {$( ctx.check_eq(&format!("{stream}.tables.{}", stringify!($n)), &m.$n, &g.$n, &input); )*};
+                    }
+                    f!(dir_fmt, dirs, file_fmt, files, has, file_lookup, dir_lookup, file_dirs, resolved);
+                }
+            }
+            // the completed program returned by sequences() must carry the tables of the
+            // executed program (files added by DW_LNE_define_file included)
+            if let (Some(tc), None) = (&got.tables_complete, &got.row_err) {
+                ctx.obs("strict.tables.complete_program");
+                if &after != tc {
+                    macro_rules! f {
+                        ($($n:ident),*) => {$( ctx.check_eq(&format!("{stream}.sequences.tables.{}", stringify!($n)), &after.$n, &tc.$n, &input); )*};
                     }
                     f!(dir_fmt, dirs, file_fmt, files, has, file_lookup, dir_lookup, file_dirs, resolved);
                 }
